@@ -10,6 +10,14 @@ Exactness: J = 2^e * J0 is exact in float64; on family F2 (lambda_max(J0 J0^T) i
 the expected weights / outputs are rationals and are compared by rationalised equality
 (Fraction(x).limit_denominator(D)) plus a residual bound; elsewhere the derived allowance of
 DualCone.tla (header) is used.
+
+Presentations and histories (DualCone.tla, section of that name; exported per scenario as `pres` and `buf`):
+the preference vector of a case is GIVEN in one of the dtypes that hold it exactly (float64 / float32 / int64,
+rotating), next to a float64 or (F2, around the threshold) a float32 matrix; the scenarios of one shape form a
+*session* (class Session) in which, according to the scenario's buffer mode, the matrix of a call is a new tensor
+or is written in place (copy_) into the tensor object of the previous calls, and the aggregator is a new object or
+the one that already served the same arguments.  The expected values are those of the instance in every case.  A
+failure that disappears when the case is run alone is reported with the shortest history suffix that reproduces it.
 """
 
 from __future__ import annotations
@@ -35,6 +43,55 @@ def frv(v) -> list[Fraction]:
 
 def pref_tensor(u: list[Fraction] | None, dtype=torch.float64):
     return None if u is None else torch.tensor([float(x) for x in u], dtype=dtype)
+
+
+DTYPES = {"f64": torch.float64, "f32": torch.float32, "i64": torch.int64}
+EPS32 = 2.0 ** -23
+K32 = 64.0              # assumed backward-error constant of the float32 SVD / U diag U^T product (in units of eps32)
+
+
+def pref_given(u: list[Fraction] | None, pd: str):
+    """The preference vector as the tensor the caller hands over: dtype `pd` (an admissible presentation holds u
+    exactly, DualCone.tla Presentable; "f64" = nearest double).  None / "none" = the default preference."""
+    if u is None or pd == "none":
+        return None
+    if pd == "i64":
+        if any(x.denominator != 1 for x in u):
+            raise ValueError(f"{u} is not presentable as int64")
+        return torch.tensor([int(x) for x in u], dtype=torch.int64)
+    t = torch.tensor([float(x) for x in u], dtype=DTYPES[pd])
+    if pd == "f32" and any(Fraction(float(v)) != x for v, x in zip(t.tolist(), u)):
+        raise ValueError(f"{u} is not presentable as float32")
+    return t
+
+
+class Session:
+    """The tensor and aggregator OBJECTS of one session (DualCone.tla, BufModes): `tensor` returns the object that
+    carries the matrix of the next call - a new one, or the current one of that shape / dtype overwritten in place;
+    `agg` returns a new aggregator object or the current one built with the same arguments."""
+
+    def __init__(self):
+        self.tensors: dict = {}
+        self.aggs: dict = {}
+
+    def tensor(self, J: torch.Tensor, mode: str) -> torch.Tensor:
+        key = (tuple(J.shape), J.dtype)
+        t = self.tensors.get(key)
+        if mode == "reused" and t is not None:
+            t.copy_(J)
+            return t
+        t = J.clone()
+        self.tensors[key] = t
+        return t
+
+    def agg(self, name: str, u: list[Fraction] | None, pd: str, norm_eps: float, reg_eps: float, mode: str):
+        key = (name, None if u is None else tuple(u), pd, norm_eps, reg_eps)
+        A = self.aggs.get(key)
+        if mode == "reused" and A is not None:
+            return A
+        A = make(name, pref_given(u, pd), norm_eps, reg_eps)
+        self.aggs[key] = A
+        return A
 
 
 def rat_match(x: float, q: Fraction) -> bool:
@@ -92,19 +149,31 @@ def thresh_sign(lam_lo: int, lam_int: bool, e: int, norm_eps: float) -> int:
 
 # ------------------------------------------------------------------------------------------ C03
 
-def c03_cases(scn: dict, tier: str) -> tuple[list[dict], dict]:
-    """All C03 cases of one scenario + counters of what was skipped (ties)."""
+def c03_cases(scn: dict, tier: str, salt: int = 0) -> tuple[list[dict], dict]:
+    """All C03 cases of one scenario + counters of what was skipped (ties).  Every case carries its presentation:
+    `pd` (dtype the preference vector is given in, rotating over the admissible ones exported by the specification,
+    "none" for the default preference), `dtype` ("f32" for the float32-matrix cases) and the buffer mode of its
+    scenario (`tmode` / `amode`, DualCone.tla BufMode with salt = seed)."""
     cases: list[dict] = []
     cnt = {"ties_skipped": 0, "undecided_scale_skipped": 0}
     J0, m, tr, L, lam_int = scn["J"], scn["m"], scn["tr"], scn["lamLo"], scn["lamInt"]
     prefs = scn["prefs"]
     h = sum((i + 1) * x for i, x in enumerate(sum(J0, [])))
-    base = {"J0": J0, "m": m, "n": scn["n"], "tr": tr, "lamLo": L, "lamInt": lam_int, "conflict": scn["conflict"]}
+    mode = scn["buf"][salt % 4]
+    base = {"J0": J0, "m": m, "n": scn["n"], "tr": tr, "lamLo": L, "lamInt": lam_int, "conflict": scn["conflict"],
+            "tmode": mode["tensor"], "amode": mode["agg"]}
+
+    def pd_of(pi: int, rot: int) -> str:
+        if pi == 0 and m > 1:
+            return "none"                                    # the default preference vector (pref_vector=None)
+        pres = scn["pres"][pi]
+        return pres[(h + salt + rot) % len(pres)]
+
     if tr == 0:
         # zero matrix: s = 0 < norm_eps whatever eps: output must be J^T u = 0
-        for agg in ("upgrad", "dualproj"):
+        for ai, agg in enumerate(("upgrad", "dualproj")):
             for pi, u in enumerate(prefs):
-                cases.append(base | {"kind": "below", "agg": agg, "pi": pi, "u": u, "e": 0,
+                cases.append(base | {"kind": "below", "agg": agg, "pi": pi, "u": u, "pd": pd_of(pi, pi + ai), "e": 0,
                                      "norm_eps": NORM_EPS_DEFAULT, "reg_eps": REG_EPS_DEFAULT})
         return cases, cnt
     # ---- F2: exact rational expectation, dyadic eps, asymmetric pairs, scales straddling norm_eps
@@ -114,7 +183,8 @@ def c03_cases(scn: dict, tier: str) -> tuple[list[dict], dict]:
         for ei, re in enumerate(scn["regeps"]):
             a_eq = int(math.log2(re[1]))
             # without any negative inner product no projection is active: a reduced ladder
-            for a in ((a_eq, 1 + (a_eq + 1) % 5) if scn["conflict"] else (1 + (a_eq + 1) % 5,)):   # norm_eps = 2^-a
+            a_list = (a_eq, 1 + (a_eq + 1) % 5) if scn["conflict"] else (1 + (a_eq + 1) % 5,)
+            for a in a_list:                                                                     # norm_eps = 2^-a
                 for k in ((kstar - 2, kstar - 1, kstar, kstar + 1, kstar + 3) if scn["conflict"] else (kstar - 1, kstar)):
                     if k < -8 or k > 8:
                         continue
@@ -127,12 +197,19 @@ def c03_cases(scn: dict, tier: str) -> tuple[list[dict], dict]:
                         # ladder with one preference vector each (rotating), to bound the number of calls
                         if k != kstar and pi != (h + k + ei) % len(prefs):
                             continue
-                        for agg, wk, ok_ in (("dualproj", "wd", "od"), ("upgrad", "wu", "ou")):
+                        for ai, (agg, wk, ok_) in enumerate((("dualproj", "wd", "od"), ("upgrad", "wu", "ou"))):
                             exp = scn["f2"][ei][pi]
-                            cases.append(base | {
-                                "kind": "f2", "agg": agg, "pi": pi, "u": u, "e": k - a,
+                            c = base | {
+                                "kind": "f2", "agg": agg, "pi": pi, "u": u, "pd": pd_of(pi, pi + ei + k + ai + a), "e": k - a,
                                 "norm_eps": 2.0 ** -a, "reg_eps": re[0] / re[1], "below": sg < 0,
-                                "w": u if sg < 0 else exp[wk], "out": None if sg < 0 else exp[ok_]})
+                                "w": u if sg < 0 else exp[wk], "out": None if sg < 0 else exp[ok_]}
+                            cases.append(c)
+                            # the same call on a FLOAT32 matrix (2^e J0 is exact in float32 too), right above and right
+                            # below the threshold, one eps pair per instance: weights within the derived float32
+                            # allowance of the same exact rational expectation (eval_c03)
+                            if k in (kstar - 1, kstar) and a == a_list[0] and ei == (h + salt) % len(scn["regeps"]) and \
+                                    (scn["conflict"] or pi == 1):
+                                cases.append(c | {"dtype": "f32", "pd": pd_of(pi, pi + ei + k + ai + a + 1)})
     # ---- F1: delta -> 0 oracle with the derived allowance, default eps and one asymmetric pair
     f1_scales = (-20, -14, -13, -12, 0, 13, 40) if tier == "thorough" else (-20, -13, 0, 40)
     for (ne, rg) in ((NORM_EPS_DEFAULT, REG_EPS_DEFAULT), (1e-2, 1e-6)):
@@ -145,22 +222,27 @@ def c03_cases(scn: dict, tier: str) -> tuple[list[dict], dict]:
                 cnt["undecided_scale_skipped"] += 1
                 continue
             for pi, u in enumerate(prefs):
-                for agg, xk, nk in (("dualproj", "xd", "nd"), ("upgrad", "xu", "nu")):
+                for ai, (agg, xk, nk) in enumerate((("dualproj", "xd", "nd"), ("upgrad", "xu", "nu"))):
                     f1 = scn["f1"][pi]
                     norms = [f1[nk]] if agg == "dualproj" else f1[nk]
                     cases.append(base | {
-                        "kind": "below" if sg < 0 else "f1", "agg": agg, "pi": pi, "u": u, "e": e,
+                        "kind": "below" if sg < 0 else "f1", "agg": agg, "pi": pi, "u": u, "pd": pd_of(pi, pi + e + ai), "e": e,
                         "norm_eps": ne, "reg_eps": rg, "x0": f1[xk], "v0norm2": norms})
     return cases, cnt
 
 
-def _run_weighted(case: dict, dtype=torch.float64):
-    u = None if (case["pi"] == 0 and case["m"] > 1) else frv(case["u"])
-    A = make(case["agg"], pref_tensor(u, dtype), case["norm_eps"], case["reg_eps"])
-    J = scaled(case["J0"], case["e"], dtype)
+def _run_weighted(case: dict, sess: Session | None = None):
+    """One call of the real code as the case presents it: matrix dtype, preference dtype, and - inside a session -
+    the tensor / aggregator objects of the case's buffer mode.  Returns (J, weights, output) with float64 lists."""
+    sess = sess or Session()
+    pd = case.get("pd", "f64")
+    u = None if (pd == "none" or (case["pi"] == 0 and case["m"] > 1)) else frv(case["u"])
+    dtype = DTYPES[case.get("dtype", "f64")]
+    A = sess.agg(case["agg"], u, "none" if u is None else pd, case["norm_eps"], case["reg_eps"], case.get("amode", "fresh"))
+    J = sess.tensor(scaled(case["J0"], case["e"], dtype), case.get("tmode", "fresh"))
     w = A.weighting(J)
     out = A(J)
-    return J, w.tolist(), out.tolist()
+    return J, w.to(torch.float64).tolist(), out.to(torch.float64).tolist()
 
 
 def case_key(case: dict) -> str:
@@ -168,6 +250,8 @@ def case_key(case: dict) -> str:
     extra = ""
     if case["agg"] in ("upgrad", "dualproj"):
         extra = f":u{case['pi']}:ne={case['norm_eps']:g}:re={case['reg_eps']:g}"
+        if case.get("pd") not in (None, "none", case.get("dtype", "f64")):      # given in another dtype than the matrix (C03)
+            extra += f":pref={case['pd']}"
     elif case["agg"] == "mgda":
         extra = f":K={case['K']}"
     elif case["agg"] == "cagrad":
@@ -179,28 +263,51 @@ def case_key(case: dict) -> str:
     return f"{case['agg']}:J=[{j}]{bs}:e={case['e']}{extra}:{case.get('dtype', 'f64')}"
 
 
-def eval_c03(case: dict) -> list[tuple[str, str]]:
-    """Run one C03 case on the real code; return [(key, what)] for every broken clause."""
+def eval_c03(case: dict, sess: Session | None = None) -> list[tuple[str, str]]:
+    """Run one C03 case on the real code (inside `sess` when given); return [(key, what)] for every broken clause.
+
+    float32 matrices (F2 cases only): the computed A' = G'/s'^2 + rho I differs from A by |A' - A| <= K32 eps32
+    (|G/s^2| = 1; K32 = 64 assumed for the float32 SVD and the product U diag U^T); the minimiser v(A) of the strictly
+    convex QP over {v >= u} satisfies (variational inequalities of A, v and A', v' tested against each other)
+        (v - v')^T A (v - v') <= ((A' - A) v')^T (v - v')   hence   |v - v'| <= |A' - A| |v'| / lambda_min(A) <= K32 eps32 |v'| / rho;
+    every projection is a non-negative vector, so the 2-norms of DualProj's weights and of UPGrad's m row projections
+    are bounded by |w*|_1 of the exact weights w*:  |w - w*| <= (K32 eps32 / rho + 2 eps32) |w*|_1  (the second term:
+    cast of the float64 QP solution to float32), and |out/2^e - J0^T w*| <= sqrt(tr G0) (that bound + 4 eps32 |w*|_1)."""
     fails: list[tuple[str, str]] = []
     key = case_key(case)
     u = frv(case["u"])
     m, e, tr = case["m"], case["e"], case["tr"]
     sc = 2.0 ** e
+    f32 = case.get("dtype") == "f32"
+    pdesc = {"none": "default", "f64": "float64", "f32": "float32", "i64": "int64"}[case.get("pd", "f64")]
+    desc = (f"{case['agg']}(pref={[str(x) for x in u]} given as {pdesc}, norm_eps={case['norm_eps']:g}, reg_eps={case['reg_eps']:g}) "
+            f"on the {'float32' if f32 else 'float64'} matrix J = 2^{e} * {case['J0']}")
     try:
-        J, w, out = _run_weighted(case)
+        J, w, out = _run_weighted(case, sess)
     except Exception as ex:                                                   # noqa: BLE001
-        return [(key + ":raised", f"{case['agg']} raised {type(ex).__name__}: {str(ex)[:150]} on J=2^{e}*{case['J0']}")]
+        return [(key + ":raised", f"{desc} raised {type(ex).__name__}: {str(ex)[:150]}")]
     JT = list(zip(*case["J0"]))
-    desc = (f"{case['agg']}(pref={[str(x) for x in u]}, norm_eps={case['norm_eps']:g}, reg_eps={case['reg_eps']:g}) "
-            f"on J = 2^{e} * {case['J0']}")
     if case["kind"] == "below":
         # s < norm_eps: weights = u and output = J^T u (up to float rounding of the product)
         exp_out = [float(sum(Fraction(c) * x for c, x in zip(col, u))) for col in JT]
-        tol = 1e-12 * math.sqrt(max(tr, 1)) * (sum(abs(float(x)) for x in u))
-        if any(abs(wi - float(ui)) > 1e-12 * max(1.0, abs(float(ui))) for wi, ui in zip(w, u)):
+        u1 = sum(abs(float(x)) for x in u)
+        tol = (4 * EPS32 if f32 else 1e-12) * math.sqrt(max(tr, 1)) * u1
+        if any(abs(wi - float(ui)) > (2 * EPS32 if f32 else 1e-12) * max(1.0, abs(float(ui))) for wi, ui in zip(w, u)):
             fails.append((key + ":below_w", f"{desc}: s < norm_eps so the weights must be the preference vector, got {w}"))
         if any(abs(o / sc - x) > tol for o, x in zip(out, exp_out)):
             fails.append((key + ":below_out", f"{desc}: s < norm_eps so the output must be J^T u = {[sc * x for x in exp_out]}, got {out}"))
+    elif case["kind"] == "f2" and f32:
+        ew = frv(case["w"])
+        eo = frv(case["out"]) if case["out"] is not None else [sum(Fraction(c) * x for c, x in zip(col, u)) for col in JT]
+        w1 = sum(abs(float(q)) for q in ew)
+        aw = (2 * EPS32 if case["below"] else K32 * EPS32 / case["reg_eps"] + 2 * EPS32) * w1
+        ao = math.sqrt(tr) * (aw + 4 * EPS32 * w1)
+        if not all(abs(wi - float(q)) <= aw for wi, q in zip(w, ew)):
+            fails.append((key + ":f2_w", f"{desc}: weights {w} differ from the exact regularised projection "
+                                         f"{[str(q) for q in ew]} by more than the float32 allowance {aw:.3e}"))
+        if not all(abs(o / sc - float(q)) <= ao for o, q in zip(out, eo)):
+            fails.append((key + ":f2_out", f"{desc}: output/2^{e} = {[o / sc for o in out]} differs from the exact "
+                                           f"projection {[str(q) for q in eo]} by more than the float32 allowance {ao:.3e}"))
     elif case["kind"] == "f2":
         ew = frv(case["w"])
         if not all(rat_match(wi, q) for wi, q in zip(w, ew)):
@@ -223,9 +330,79 @@ def eval_c03(case: dict) -> list[tuple[str, str]]:
             fails.append((key + ":f1_w", f"{desc}: weights {w} not >= preference vector"))
         # A(J) must be the combination of the rows with the weights (weighted aggregator)
     comb = [sum(wi * float(c) for wi, c in zip(w, col)) * sc for col in JT]
-    if any(abs(o - c) > 1e-9 * sc * math.sqrt(max(tr, 1)) * max(1.0, sum(abs(x) for x in w)) for o, c in zip(out, comb)):
+    ctol = (8 * EPS32 if f32 else 1e-9)
+    if any(abs(o - c) > ctol * sc * math.sqrt(max(tr, 1)) * max(1.0, sum(abs(x) for x in w)) for o, c in zip(out, comb)):
         fails.append((key + ":comb", f"{desc}: output {out} is not weighting(J) @ J = {comb}"))
     return fails
+
+
+# ---- sessions
+
+_EXPECTATION_KEYS = ("w", "out", "x0", "v0norm2")
+MAX_HISTORY_FAILS = 4          # history-dependent failures itemised (with a minimised history) per session
+
+
+def _slim(case: dict) -> dict:
+    return {k: v for k, v in case.items() if k not in _EXPECTATION_KEYS}
+
+
+def replay_history(history: list[dict], case: dict) -> list[tuple[str, str]]:
+    """Re-execute, in a new session, the calls of `history` (verdicts ignored) and then judge `case`."""
+    sess = Session()
+    for hc in history:
+        try:
+            _run_weighted(hc, sess)
+        except Exception:                                                     # noqa: BLE001
+            pass
+    return eval_c03(case, sess)
+
+
+def minimise_history(history: list[dict], case: dict, clause_keys: set[str]) -> list[dict]:
+    """Shortest suffix of the history (by halving, then the single last call) after which the case still breaks one of
+    the same clauses; the full history when no shorter suffix does."""
+    def still(hh):
+        return bool({k for k, _ in replay_history(hh, case)} & clause_keys)
+    h = history
+    while len(h) > 1 and still(h[len(h) // 2:]):
+        h = h[len(h) // 2:]
+    for cut in (1, 2, 4, 8):
+        if cut < len(h) and still(h[-cut:]):
+            return h[-cut:]
+    return h
+
+
+def eval_session(cases: list[dict]) -> tuple[list[tuple[str, str, dict]], dict]:
+    """Run the cases of one session in order on shared objects.  Returns ([(key, what, payload)], counters).  A failing
+    case is first re-run ALONE with new objects: if it fails alone the payload is the case; otherwise the failure
+    depends on the history of the objects and the payload carries the shortest reproducing history suffix."""
+    sess = Session()
+    fails: list[tuple[str, str, dict]] = []
+    cnt = {"history_dependent_failures": 0}
+    done: list[dict] = []
+    for c in cases:
+        got = eval_c03(c, sess)
+        if got:
+            # new objects throughout: the call IS the call alone
+            alone = got if (c["tmode"], c["amode"]) == ("fresh", "fresh") else eval_c03(c)
+            alone_keys = {k for k, _ in alone}
+            for key, what in got:
+                if key in alone_keys:
+                    fails.append((key, what, {"kind": "case", "case": c}))
+            hist = [(k, w_) for k, w_ in got if k not in alone_keys]
+            if hist:
+                cnt["history_dependent_failures"] += 1
+                if cnt["history_dependent_failures"] <= MAX_HISTORY_FAILS:
+                    h = minimise_history([_slim(x) for x in done], c, {k for k, _ in hist})
+                    prev = h[-1] if h else None
+                    for key, what in hist:
+                        fails.append((key + ":after_history",
+                                      f"{what} -- only after {len(h)} earlier call(s) of the session on the same tensor / aggregator "
+                                      f"objects (tensor {c['tmode']}, aggregator {c['amode']}; the last one: "
+                                      f"{prev['agg'] if prev else '-'} on 2^{prev['e'] if prev else 0} * {prev['J0'] if prev else '-'}); "
+                                      f"the same call alone on new objects is correct",
+                                      {"kind": "session", "history": h, "case": c}))
+        done.append(c)
+    return fails, cnt
 
 
 # ------------------------------------------------------------------------------------------ C04
@@ -458,16 +635,39 @@ def eval_c04(case: dict) -> list[tuple[str, str]]:
 # --------------------------------------------------------------------------- per-scenario workers
 
 def work_c03(args) -> dict:
-    scn, tier = args
-    cases, cnt = c03_cases(scn, tier)
-    fails = []
-    for c in cases:
-        for key, what in eval_c03(c):
-            fails.append((key, what, c))
+    """One SESSION: consecutive scenarios of equal shape, replayed in order on the session's objects."""
+    scns, tier, salt = args
+    cnt: dict[str, int] = {}
     kinds: dict[str, int] = {}
+    cases: list[dict] = []
+    per_scn: list[int] = []
+    for scn in scns:
+        cs, c = c03_cases(scn, tier, salt)
+        per_scn.append(len(cs))
+        cases += cs
+        for k, v in c.items():
+            cnt[k] = cnt.get(k, 0) + v
+    fails, c2 = eval_session(cases)
+    for k, v in c2.items():
+        cnt[k] = cnt.get(k, 0) + v
     for c in cases:
         kinds[c["kind"]] = kinds.get(c["kind"], 0) + 1
-    return {"n": len(cases), "fails": fails, "cnt": cnt, "kinds": kinds}
+        pk = f"matrix_{c.get('dtype', 'f64')}_pref_{c['pd']}"
+        kinds[pk] = kinds.get(pk, 0) + 1
+        bk = f"tensor_{c['tmode']}_agg_{c['amode']}"
+        kinds[bk] = kinds.get(bk, 0) + 1
+    return {"n": len(cases), "per_scn": per_scn, "fails": fails, "cnt": cnt, "kinds": kinds}
+
+
+def sessions_of(scns: list[dict], length: int = 6) -> list[list[dict]]:
+    """Cut the (sorted) scenario list into sessions: runs of at most `length` consecutive scenarios of equal shape."""
+    out: list[list[dict]] = []
+    for s in scns:
+        if out and len(out[-1]) < length and (out[-1][-1]["m"], out[-1][-1]["n"]) == (s["m"], s["n"]):
+            out[-1].append(s)
+        else:
+            out.append([s])
+    return out
 
 
 def work_c04(args) -> dict:
